@@ -15,6 +15,7 @@ import (
 	"reflect"
 	"runtime"
 	"slices"
+	"strings"
 	"sync"
 	"time"
 
@@ -616,10 +617,11 @@ func (m *Mint) RequestMeltQuote(meltQuoteRequest nut05.PostMeltQuoteBolt11Reques
 	invoiceSatAmount := (uint64(bolt11.MSatoshi) + 999) / 1000
 	quoteAmount := invoiceSatAmount
 
-	// check if a mint quote exists with the same invoice.
-	_, err = m.db.GetMintQuoteByPaymentHash(bolt11.PaymentHash)
+	// check if a mint quote exists with the same invoice. Having the same payment hash
+	// is not enough. Anyone can create an invoice with that hash and another amount.
+	mintQuote, err := m.db.GetMintQuoteByPaymentHash(bolt11.PaymentHash)
 	isInternal := false
-	if err == nil {
+	if err == nil && strings.EqualFold(mintQuote.PaymentRequest, request) {
 		isInternal = true
 	}
 
@@ -872,7 +874,7 @@ func (m *Mint) MeltTokens(ctx context.Context, meltTokensRequest nut05.PostMeltB
 	// before asking backend to send payment, check if quotes can be settled
 	// internally (i.e mint and melt quotes exist with the same invoice)
 	mintQuote, err := m.db.GetMintQuoteByPaymentHash(meltQuote.PaymentHash)
-	if err == nil {
+	if err == nil && strings.EqualFold(mintQuote.PaymentRequest, meltQuote.InvoiceRequest) {
 		m.logDebugf("quotes '%v' and '%v' have same invoice so settling them internally", meltQuote.Id, mintQuote.Id)
 		meltQuote, err = m.settleQuotesInternally(mintQuote, meltQuote)
 		if err != nil {
